@@ -92,7 +92,9 @@ pub fn main(args: &[String]) {
     while (n_gen as usize) < n_modules {
         n_gen += 1;
         let (wasm, info) = gen::module(&mut r, &tab, &cfg);
-        if let Err(e) = amod::validate(&wasm, feats) { n_invalid += 1; if std::env::var("VH_DEBUG").is_ok() { eprintln!("invalid generated module: {}", e); } continue; }
+        if let Err(e) = amod::validate(&wasm, feats) { n_invalid += 1; if std::env::var("VH_DEBUG").is_ok() { eprintln!("invalid generated module: {}", e);
+            if let Ok(a) = amod::decode(&wasm) { let off: usize = e.rsplit("0x").next().and_then(|h| usize::from_str_radix(h.trim_end_matches(')'), 16).ok()).unwrap_or(0);
+                for b in &a.code { if b.range.0 <= off && off <= b.range.1 { let k = b.ops.iter().position(|o| o.1 >= off).unwrap_or(0); for o in &b.ops[k.saturating_sub(6)..(k + 2).min(b.ops.len())] { eprintln!("    {} {:?}", o.1, o.0); } } } } } continue; }
         for n in &info.op_names { *op_hist.entry(n).or_insert(0) += 1; }
         n_dead += info.dead_ops as u64; n_blocks += info.blocks as u64; maxdepth = maxdepth.max(info.max_depth_seen);
         let mut mcfg = ModuleConfig::new(); mcfg.generate_producers_section(false);
